@@ -23,6 +23,14 @@ def cases(seed, tier):
         out.append({"group": "reassign", "seed": sub_seed(seed, "c02xs", i), "fwd": fwd[i % len(fwd)], "emode": ["none", "E", "EM"][(i // 6) % 3],
                     "steps": rng.choice([2, 3]), "chain": rng.random() < 0.6, "n": rng.choice([3, 6, 7]), "ncols": rng.choice([1, 2]),
                     "bck": rng.choice(["same", "bicgstab", "default_tight"]), "batch": rng.choice([(), (2,)]), "reassign_m": rng.random() < 0.5})
+    # the ALIAS STRUCTURE of the operator's tensors changes between two solves on one object (two slots hold one tensor, then two tensors;
+    # or the reverse)
+    nal = 36 if tier == "quick" else 360
+    for i in range(nal):
+        rng = random.Random(sub_seed(seed, "c02xl", i))
+        out.append({"group": "reassign", "kind": "alias_change", "seed": sub_seed(seed, "c02xls", i), "fwd": ["bicgstab", "cg", "custom_exactsolve", None][i % 4],
+                    "direction": ["split", "merge", "split_then_merge"][(i // 4) % 3], "n": rng.choice([4, 6, 8]), "ncols": rng.choice([1, 2]),
+                    "chain": rng.random() < 0.5})
     # a failing call (an operator product raises during forward or backward), caught; the caller's tensors updated IN PLACE; the same operator
     # objects used again
     na = 45 if tier == "quick" else 450
@@ -58,6 +66,95 @@ def _dense(d, U):
 
 class _Injected(Exception):
     pass
+
+
+def run_alias_change(desc):
+    import xitorch
+    from xitorch.linalg import solve
+    obs = Obs(desc)
+    tg = torch.Generator().manual_seed(desc["seed"])
+    n, ncols, fwd = desc["n"], desc["ncols"], desc["fwd"]
+
+    class TwoDiag(xitorch.LinearOperator):
+        """A = diag(d1) + diag(d2) + U U^T, matrix-free; d1 and d2 may be one and the same tensor"""
+
+        def __init__(self, d1, d2, U):
+            super().__init__(shape=(n, n), is_hermitian=True, dtype=d1.dtype, device=d1.device)
+            self.d1, self.d2, self.U = d1, d2, U
+
+        def _mv(self, x):
+            return (self.d1 + self.d2) * x + torch.matmul(self.U, torch.matmul(self.U.transpose(-2, -1), x.unsqueeze(-1))).squeeze(-1)
+
+        def _getparamnames(self, prefix=""):
+            return [prefix + "d1", prefix + "d2", prefix + "U"]
+
+    def rn(*s, scale=1.0):
+        return torch.randn(*s, dtype=DT, generator=tg) * scale
+    t = (1.0 + torch.rand(n, dtype=DT, generator=tg)).requires_grad_()
+    t2 = (2.0 + torch.rand(n, dtype=DT, generator=tg)).requires_grad_()
+    U = rn(n, 2, scale=0.4).requires_grad_()
+    B = rn(n, ncols).requires_grad_()
+    # generations of (d1, d2): "split": (t, t) -> (t, t2); "merge": (t, t2) -> (t, t); "split_then_merge": (t, t) -> (t, t2) -> (t2, t2)
+    gens = {"split": [(t, t), (t, t2)], "merge": [(t, t2), (t, t)], "split_then_merge": [(t, t), (t, t2), (t2, t2)]}[desc["direction"]]
+    fopts = dict(rtol=1e-11, atol=1e-13, max_niter=20 * n + 40) if (fwd in ("cg", "bicgstab") or (fwd is None and n > 5)) else {}
+    bopts = dict(method="bicgstab", rtol=1e-11, atol=1e-13, max_niter=20 * n + 40)
+    mech = "alias_change:%s:%s" % (desc["direction"], fwd or "auto")
+    leaves = [t, t2, U, B]
+    names = ["t", "t2", "U", "B"]
+    Cs = [rn(n, ncols) for _ in gens]
+    with WarnLog() as wl:
+        try:
+            op = TwoDiag(gens[0][0], gens[0][1], U)
+            outs, rhs = [], B
+            for gi, (a1, a2) in enumerate(gens):
+                if gi > 0:
+                    op.d1, op.d2 = a1, a2
+                X = solve(op, rhs, method=fwd, bck_options=dict(bopts), **fopts)
+                obs.check(op.d1 is a1 and op.d2 is a2 and op.U is U, "reassign:alias_change:object_changed:" + mech,
+                          "after solve number %d the operator no longer holds the tensors assigned to it (d1 kept: %s, d2 kept: %s)" % (gi, op.d1 is a1, op.d2 is a2))
+                outs.append(X)
+                rhs = (X + 0.5 * B) if desc["chain"] else B * (1.0 + 0.3 * (gi + 1))
+            L = sum((c * X).sum() for c, X in zip(Cs, outs))
+            g1 = torch.autograd.grad(L, leaves, create_graph=True, allow_unused=True)
+            D = [rn(*x.shape) for x in leaves]
+            S = sum((gi_ * di).sum() for gi_, di in zip(g1, D) if gi_ is not None and gi_.requires_grad)
+            g2 = torch.autograd.grad(S, leaves, allow_unused=True)
+            a1, a2 = gens[-1]
+            obs.check(op.d1 is a1 and op.d2 is a2, "reassign:alias_change:object_changed:" + mech, "after the backward pass the operator no longer holds the tensors assigned last")
+        except Exception as e:
+            obs.exc_violation("reassign:alias_change:call:" + mech, e)
+            obs.nontrivial = True
+            return obs.result()
+    if wl.convergence:
+        obs.count("reassign_forward_warned")
+        return obs.result()
+    l2 = [x.detach().clone().requires_grad_() for x in leaves]
+    tt, tt2, UU, BB = l2
+    sub = {id(t): tt, id(t2): tt2}
+    outs2, rhs = [], BB
+    for gi, (a1, a2) in enumerate(gens):
+        Ad = torch.diag_embed(sub[id(a1)] + sub[id(a2)]) + UU @ UU.T
+        X = torch.linalg.solve(Ad, rhs)
+        outs2.append(X)
+        rhs = (X + 0.5 * BB) if desc["chain"] else BB * (1.0 + 0.3 * (gi + 1))
+    L2 = sum((c * X).sum() for c, X in zip(Cs, outs2))
+    r1 = torch.autograd.grad(L2, l2, create_graph=True, allow_unused=True)
+    S2 = sum((gi_ * di).sum() for gi_, di in zip(r1, D) if gi_ is not None and gi_.requires_grad)
+    r2 = torch.autograd.grad(S2, l2, allow_unused=True)
+    for gi, (X, Xr) in enumerate(zip(outs, outs2)):
+        err = float((X.detach() - Xr.detach()).abs().max())
+        obs.check(err <= 1e-7 * (1 + float(Xr.detach().abs().max())), "reassign:alias_change:value:" + mech,
+                  "solution %d (after the alias structure of the operator's tensors changed) differs from the dense one by %.3e" % (gi, err))
+    for order, gs, rs, tol in (("first", g1, r1, 1e-6), ("second", g2, r2, 1e-5)):
+        sc = max([1.0] + [float(r.detach().abs().max()) for r in rs if r is not None])
+        for nm, g, r, x in zip(names, gs, rs, leaves):
+            g = torch.zeros_like(x) if g is None else g.detach()
+            r = torch.zeros_like(x) if r is None else r.detach()
+            err = float((g - r).abs().max())
+            obs.check(err <= tol * sc, "reassign:alias_change:grad_%s:%s:%s" % (order, nm, mech), "%s-order gradient w.r.t. %s differs from the dense chain by %.3e (scale %.2e)" % (order, nm, err, sc))
+    obs.count("alias_change_compared")
+    obs.nontrivial = True
+    return obs.result()
 
 
 def run_abort(desc):
@@ -175,6 +272,8 @@ def run_abort(desc):
 def run_case(desc):
     if desc.get("kind") == "abort_reuse":
         return run_abort(desc)
+    if desc.get("kind") == "alias_change":
+        return run_alias_change(desc)
     from xitorch.linalg import solve
     obs = Obs(desc)
     tg = torch.Generator().manual_seed(desc["seed"])
